@@ -419,6 +419,8 @@ nfa, with no epsilon transition
 
         """
         from pyformlang.regular_expression import Regex
+        if len(self._start_state) > 1:
+            return self._to_single_start_state().to_regex()
         enfas = [self.copy() for _ in self._final_states]
         final_states = list(self._final_states)
         for i in range(len(self._final_states)):
@@ -435,6 +437,19 @@ nfa, with no epsilon transition
                 regex_l.append(regex_sub)
         res = "+".join(regex_l)
         return Regex(res)
+
+    def _to_single_start_state(self) -> "EpsilonNFA":
+        """ Get an equivalent epsilon NFA with a single start state, which \
+        goes to the previous start states with epsilon transitions """
+        enfa = self.copy()
+        new_start = State("Start")
+        while new_start in enfa.states:
+            new_start = State(str(new_start.value) + "'")
+        for start in self._start_state:
+            enfa.remove_start_state(start)
+            enfa.add_transition(new_start, Epsilon(), start)
+        enfa.add_start_state(new_start)
+        return enfa
 
     def _get_regex_simple(self) -> str:
         """ Get the regex of an automaton when it only composed of a start and
